@@ -35,15 +35,47 @@ def integral_summary(F, cls, f):
             return sp.Symbol("cval", real=True)
         return NotImplemented
 
-    I = Interp(F, cls, on_call=on_call)
-    I.case = {"first": False, "last": False}
-    I.field_assumptions["num_segments_"] = {"positive": True}
-    I.field_assumptions["integral_num_steps_"] = {"positive": True}
-    env = {p["id"]: I.make_value(p["name"], p["ty"]) for p in f["params"]}
-    I.run_body(f, env)
-    info["I"] = I
-    info["env"] = env
-    info["params"] = [p["name"] for p in f["params"]]
+    def interpret(positive):
+        info.clear()
+        I = Interp(F, cls, on_call=on_call)
+        I.case = {"first": False, "last": False}
+        for nm in positive:
+            I.field_assumptions[nm] = {"positive": True}
+        env = {p["id"]: I.make_value(p["name"], p["ty"]) for p in f["params"]}
+        I.run_body(f, env)
+        info["I"] = I
+        info["env"] = env
+        info["params"] = [p["name"] for p in f["params"]]
+    # roles are read off the interpreted routine, not assumed by name: a first pass finds the segment count and the number
+    # of quadrature steps (the bounds of the two nested loops), the second pass knows they are positive
+    interpret(())
+    ints = {x["name"] for x in F.record(cls)["fields"] if x["ty"].get("c") == "int"}
+    Lseg, Lk = find_loops(info)[:2]
+
+    def bound_member(L):
+        nm = [x.name for x in sp.sympify(L.hi).free_symbols if x.name in ints] if L.hi is not None else []
+        if len(nm) != 1:
+            raise Broken("calculateIntegralCost: loop bound %s is not one integer member of the class" % L.hi)
+        return nm[0]
+    n_name, ks_name = bound_member(Lseg), bound_member(Lk)
+    interpret((n_name, ks_name))
+    Lseg, Lk = find_loops(info)[:2]
+    i = Lseg.var
+    ws, gdC, gdT, cost = info["params"][:4]
+    sample = info.get("sample") or []
+    base = lambda a: str(a.base).split("#")[0]
+    t_at = sorted({base(a) for a in sp.sympify(sample[0]).atoms(sp.Indexed)}) if sample else []
+    g_at = sorted({base(a) for a in sp.sympify(sample[1]).atoms(sp.Indexed)} - set(t_at)) if sample else []
+    if len(t_at) != 1 or len(g_at) != 1:
+        raise Broken("calculateIntegralCost: duration array / segment start-time array not identified from the sample times (%s ; %s)" % (t_at, g_at))
+    slot = [e for e in Lseg.effects if len(e.key) == 1 and sym.is_zero(e.key[0] - i) and e.target not in (gdC, gdT) and not e.target.startswith("$")]
+    segc = sorted({e.target for e in slot if e.op == "="})
+    expl = sorted({e.target for e in slot if e.op == "+="})
+    from .c16 import discover_roles
+    from ..effects import Effects
+    _f, r16 = discover_roles(F, Effects(F), cls)
+    info["roles"] = {"n": n_name, "Ks": ks_name, "T": t_at[0], "starts": g_at[0], "segc": segc[0] if len(segc) == 1 else None, "expl": expl[0] if len(expl) == 1 else None,
+                     "start": r16["START"]}
     return info
 
 
@@ -55,22 +87,24 @@ def find_loops(info):
         raise Broken("per-segment quadrature loop not identified")
     Lseg = main[0]
     Lk = Lseg.inner[0]
-    Lstart = next((L for L in I.loops if L is not Lseg and any(e.target.endswith("segment_start_times") for e in L.effects)), None)
+    stn = (info.get("roles") or {}).get("starts")
+    Lstart = next((L for L in I.loops if L is not Lseg and stn is not None and any(e.target == stn for e in L.effects)), None)
     Lcost = next((L for L in I.loops if L is not Lseg and any(e.target == "$" + cost for e in L.effects)), None)
     Lsuffix = next((L for L in I.loops if L.step == -1), None)
     return Lseg, Lk, Lstart, Lcost, Lsuffix
 
 
-def start_times_content(I, tgt, ws, n):
+def start_times_content(I, tgt, ws, n, roles=None):
     """Content of the segment start-time array before the quadrature: start[k] = start time + T_0 + ... + T_{k-1} for every
     k in [0, N), however it is computed (a running local, a recurrence on the previous element, point writes).  Claimed
     closed form C(k) = start + PS(k) with PS(0) = 0, PS(k) = PS(k-1) + T[k-1]; every piece is checked against it by
     induction over the index.  Returns (ok, description); an array filled in a way that is not understood is broken."""
     from . import c01
     kk = sp.Symbol("k_", integer=True, nonnegative=True)
-    start = sp.Symbol("start_time_", real=True)
+    roles = roles or {}
+    start = sp.Symbol(roles.get("start", "start_time_"), real=True)
     PS = sp.Function("PS")
-    Tb = sp.IndexedBase(ws + ".cache_times", real=True)
+    Tb = sp.IndexedBase(roles.get("T", ws + ".cache_times"), real=True)
     # a running local (t = start; loop { ...; t += T[i]; }) holds start + PS(i) at the start of iteration i
     for L in I.loops:
         for nm, (symc, init) in list(L.carried.items()):
@@ -149,9 +183,10 @@ def run(chk):
             ws, gdC, gdT, cost = info["params"][:4]
             Lseg, Lk, Lstart, Lcost, Lsuffix = find_loops(info)
             i, k = Lseg.var, Lk.var
-            n = sp.Symbol("num_segments_", integer=True, positive=True)
-            Ks = sp.Symbol("integral_num_steps_", integer=True, positive=True)
-            T = sp.Indexed(sp.IndexedBase(ws + ".cache_times", real=True), i)
+            R_ = info["roles"]
+            n = sp.Symbol(R_["n"], integer=True, positive=True)
+            Ks = sp.Symbol(R_["Ks"], integer=True, positive=True)
+            T = sp.Indexed(sp.IndexedBase(R_["T"], real=True), i)
             where = loc(f, {"line": Lseg.line})
             # ---- R4 -----------------------------------------------------------------------------------
             okk = Lk.lo == 0 and sym.is_zero(Lk.hi - Ks) and Lk.cond_op == "<=" and Lk.step == 1
@@ -175,7 +210,7 @@ def run(chk):
                 okw = sym.is_zero(w0 - T / (2 * Ks)) and sym.is_zero(wK - T / (2 * Ks)) and sym.is_zero(wmid - T / Ks) and sym.is_zero(cost_acc.delta - cv * w)
                 det = "weight(0)=%s weight(K)=%s weight(interior)=%s" % (w0, wK, sp.simplify(wmid))
             chk.ob("C08-R4", "%s%s trapezoid weights T/K * (1/2, 1, ..., 1, 1/2)" % (cls, inst), okw, where, det, construct="%s/integral%s/weights" % (cls, inst))
-            segc = [e for e in Lseg.effects if e.target.endswith("segment_costs")]
+            segc = [e for e in Lseg.effects if R_["segc"] is not None and e.target == R_["segc"]]
             car = Lk.carried.get(cost_acc.target[1:]) if cost_acc is not None else None
             oks = len(segc) == 1 and segc[0].op == "=" and sym.is_zero(segc[0].key[0] - i) and car is not None and car[1] == 0 and cost_acc is not None and sym.is_zero(segc[0].value - car[0] - cost_acc.delta)
             chk.ob("C08-R4", "%s%s segment cost i = sum of the weighted samples, starting from 0" % (cls, inst), oks, where, "", construct="%s/integral%s/segment-cost" % (cls, inst))
@@ -192,10 +227,10 @@ def run(chk):
             tg = sample[1]
             okg = False
             det = str(tg)
-            st_atoms = [a for a in sp.sympify(tg).atoms(sp.Indexed) if str(a.base).split("#")[0].endswith("segment_start_times")]
+            st_atoms = [a for a in sp.sympify(tg).atoms(sp.Indexed) if str(a.base).split("#")[0] == R_["starts"]]
             if len(st_atoms) == 1:
                 okg = sym.is_zero(tg - st_atoms[0] - tloc) and sym.is_zero(st_atoms[0].indices[0] - i)
-                okc, detc = start_times_content(I, str(st_atoms[0].base).split("#")[0], ws, n)
+                okc, detc = start_times_content(I, str(st_atoms[0].base).split("#")[0], ws, n, R_)
                 okg = okg and okc
                 det += " ; " + detc
             chk.ob("C08-R2", "%s%s global time = (start time + durations of the earlier segments) + local time" % (cls, inst), okg, where, det, construct="%s/sample%s/t_global" % (cls, inst))
@@ -260,12 +295,13 @@ def check_cost_addends(chk, F, cls, f, ctx=None, first=True):
     Lseg, Lk, Lstart, Lcost, Lsuffix = find_loops(info)
     cidx = next(k_ for k_, p_ in enumerate(g["params"]) if p_["ty"].get("c") == "double" and p_["ty"].get("ref") and not p_["ty"].get("const"))
     cost_name = info["params"][cidx]
-    n = sp.Symbol("num_segments_", integer=True, positive=True)
+    n = sp.Symbol(info["roles"]["n"], integer=True, positive=True)
+    segc_name = info["roles"]["segc"] or "?"
     ok = Lcost is not None
     if ok:
         e = [x for x in Lcost.effects if x.target == "$" + cost_name]
         iv = Lcost.var
-        ok = len(e) == 1 and e[0].op == "+=" and len(e[0].delta.atoms(sp.Indexed)) == 1 and str(list(e[0].delta.atoms(sp.Indexed))[0].base).split("#")[0].endswith("segment_costs") \
+        ok = len(e) == 1 and e[0].op == "+=" and len(e[0].delta.atoms(sp.Indexed)) == 1 and str(list(e[0].delta.atoms(sp.Indexed))[0].base).split("#")[0] == segc_name \
             and sym.is_zero(list(e[0].delta.atoms(sp.Indexed))[0].indices[0] - iv) and sym.is_zero(e[0].delta - list(e[0].delta.atoms(sp.Indexed))[0]) and Lcost.lo == 0 and sym.is_zero(Lcost.hi - n)
         others = [x for L in info["I"].loops for x in L.effects if x.target == "$" + cost_name and L is not Lcost]
         ok = ok and not others and not [x for x in info["I"].effects if x.target == "$" + cost_name]
@@ -274,7 +310,7 @@ def check_cost_addends(chk, F, cls, f, ctx=None, first=True):
         fin = info["env"].get(g["params"][cidx]["id"])
         ini = sp.Symbol(cost_name, real=True)
         d_ = sp.expand(fin - ini) if isinstance(fin, sp.Basic) else None
-        ok = (d_ is not None and d_.func == sp.Function("rangesum") and str(d_.args[0]).split("#")[0].endswith("segment_costs") and sym.is_zero(d_.args[1]) and sym.is_zero(d_.args[2] - n)
+        ok = (d_ is not None and d_.func == sp.Function("rangesum") and str(d_.args[0]).split("#")[0] == segc_name and sym.is_zero(d_.args[1]) and sym.is_zero(d_.args[2] - n)
               and not [x for L in info["I"].loops for x in L.effects if x.target == "$" + cost_name])
     chk.ob("C08-R1", "%s%s the integral routine adds exactly the sum of all segment costs to the cost" % (cls, inst), ok, loc(g), "", construct="%s/cost%s/segment-sum" % (cls, inst))
 
